@@ -159,10 +159,35 @@ func tail(s string, n int) string {
 	return strings.Join(lines, "\n")
 }
 
+// claimedInManifest lists the property ids that MANIFEST.json registers checks for.
+func claimedInManifest() map[string]bool {
+	out := map[string]bool{}
+	b, err := os.ReadFile(filepath.Join(verifDir, "MANIFEST.json"))
+	if err != nil {
+		return out
+	}
+	var m struct {
+		Checks []struct {
+			PropertyID string `json:"property_id"`
+		} `json:"checks"`
+	}
+	if json.Unmarshal(b, &m) == nil {
+		for _, c := range m.Checks {
+			out[c.PropertyID] = true
+		}
+	}
+	return out
+}
+
 func cmdBuild(args []string) {
 	seen := map[string]bool{}
 	var ids []string
+	claimed := claimedInManifest()
 	for id := range props {
+		// setup warms the cache for what the manifest registers; engines under construction are skipped
+		if len(args) == 0 && len(claimed) > 0 && !claimed[id] {
+			continue
+		}
 		ids = append(ids, id)
 	}
 	sort.Strings(ids)
